@@ -880,6 +880,13 @@ func (c15) Run(e *Env) {
 		if it.body == "" {
 			e.Failf("C15/lost-at-shutdown", "datapoint %s was dispatched before the server stopped; the forwarder has shut down (its final flush ran) and no request carried it", it.key)
 		}
+		for _, k := range bodyOrder {
+			// every attempt but (in some runs) the first was answered 2xx at once and the retry window is
+			// far from over: the forwarder may not stop with that body undelivered
+			if b := bodies[k]; b.hash == it.body && !b.success {
+				e.Failf("C15/abandoned-at-shutdown", "the last body (carrying %s) had its first attempt refused %v ago, the retry window is %v, and the forwarder has shut down without sending it again or counting it as dropped", it.key, time.Since(b.firstAt), window)
+			}
+		}
 	}
 	e.Note["bodies"] = len(bodyOrder)
 	e.Note["datapoints"] = len(items)
